@@ -266,23 +266,34 @@ class Statement(object):
         :param this_index: the index that this instruction occurs at
         """
         if self.operand.is_relative():
-            base_value = 0x101 if self.instruction.is_short_branch else 0x10001
-            branch_index = self.code_pkg.additional.int
-            size_hint = 2 if self.instruction.is_short_branch else 4
-            length = 0
+            mask, size_hint = (0xFF, 2) if self.instruction.is_short_branch else (0xFFFF, 4)
+            target = self.operand.value
+            constant = 0
+            if target.is_address_expression():
+                # label+n, n+label or label-n: branch to the label, then adjust by n
+                if target.left.is_address() == target.right.is_address() or target.operation not in "+-" or \
+                        (target.operation == "-" and target.right.is_address()):
+                    raise TranslationError("Branch target must be a label, label+n or label-n", self)
+                branch_index = target.extract_address_index_from_expression()
+                constant = target.left.int if target.left.is_numeric() else target.right.int
+                constant = -constant if target.operation == "-" else constant
+            elif self.code_pkg.additional.is_address():
+                branch_index = self.code_pkg.additional.int
+            else:
+                raise TranslationError("Branch target must be a label, label+n or label-n", self)
+
+            displacement = 0
             if branch_index <= this_index:
-                length = 1
                 for statement in statements[branch_index:this_index+1]:
-                    length += statement.code_pkg.size
-                if self.instruction.is_short_branch and length > 0x81:
-                    raise TranslationError("Branch target is out of range for a short branch", self)
-                self.code_pkg.additional = NumericValue(base_value - length, size_hint=size_hint)
+                    displacement -= statement.code_pkg.size
             else:
                 for statement in statements[this_index+1:branch_index]:
-                    length += statement.code_pkg.size
-                if self.instruction.is_short_branch and length > 0x7F:
-                    raise TranslationError("Branch target is out of range for a short branch", self)
-                self.code_pkg.additional = NumericValue(length, size_hint=size_hint)
+                    displacement += statement.code_pkg.size
+            displacement += constant
+
+            if self.instruction.is_short_branch and not -128 <= displacement <= 127:
+                raise TranslationError("Branch target is out of range for a short branch", self)
+            self.code_pkg.additional = NumericValue(displacement & mask, size_hint=size_hint)
             return
 
         if self.operand.value.is_address_expression():
